@@ -63,7 +63,7 @@ type randParams struct {
 }
 
 func (*prop) Cases(seed int64, tier string) []core.Case {
-	tl, sl, nshard, nrand := 4, 5, 16, 16
+	tl, sl, nshard, nrand := 5, 6, 32, 16
 	randN := 4000
 	if tier == "thorough" {
 		tl, sl, nshard, nrand = 6, 7, 96, 64
